@@ -8,8 +8,10 @@
    - `checked_sub(..).ok_or(err)` is `csub`;  `saturating_sub` is `ssub`;
    - limb-index assertions of the layers below (`assert!(j < self.size())`, slice ranges) are `passert`: they panic in
      both profiles;
-   - the monad threads the destination's metadata, because the Rust code assigns `dst.meta` *before* some of its `?`
-     exits: a failed call can leave the destination with new metadata, which is observable.  *)
+   - the monad threads the destination's metadata, because some calls assign `dst.meta` before a later `?` exit
+     (encryption, plaintext alignment after the shift, the single-input forms of add_many / mul_many): a failed call
+     can leave the destination with new metadata, which is observable.
+   State of /repo: after the repairs fd924ce, 3326e5c, e31e2c8, 84cafa8, b042dad, 628058f.  *)
 From PV Require Import Base.MachineInt.
 Open Scope Z_scope.
 
@@ -105,6 +107,14 @@ Definition extract_pt (chk : bool) (B : Z) (p : ptz) : M unit :=
         dst.meta.log_budget = checked_log_budget_sub(op, a.log_budget(), offset)?;          ---- *)
 Definition unary_into (B : Z) (d a : ct) : M unit :=
   let off := offset_unary B d a in
+  l <- csub ECapacity (lb (cm a)) off ;;
+  shift off ;;;
+  set_meta (cm a) ;;;
+  set_lb l.
+(* the same prefix as it still stands in delegates/composite.rs (single-input add_many / mul_many):
+   dst.meta = a.meta() happens before the `?` *)
+Definition unary_into_late (B : Z) (d a : ct) : M unit :=
+  let off := offset_unary B d a in
   shift off ;;;
   set_meta (cm a) ;;;
   l <- csub ECapacity (lb (cm a)) off ;;
@@ -145,7 +155,7 @@ Definition cstznx_assign (chk : bool) (dsize : Z) (c : cst) : M unit :=
   if knone c then ret tt else
   m <- get ;;
   _ <- ensure_plaintext_alignment chk (lb m) (ld (km c)) (eff (km c)) ;;
-  passert (klen c <=? dsize).                      (* at_mut(0, limb) asserts limb < size *)
+  if dsize <? klen c then fail EAlign else ret tt.   (* more digits than the destination has limbs *)
 
 Definition cstznx_into (chk : bool) (B : Z) (d a : ct) (c : cst) : M unit :=
   unary_into B d a ;;; cstznx_assign chk (csize d) c.
@@ -179,7 +189,7 @@ Definition mul_ct_params (B : Z) (resmaxk : Z) (x y : meta) : M (Z * Z * Z) :=
   rlb <- csub EMulUnder (Z.min (lb x) (lb y)) (Z.max (ld x) (ld y)) ;;
   let rld := Z.min (ld x) (ld y) in
   let roff := ssub (rlb + rld) resmaxk in
-  let cnv := Z.max (eff x) (eff y) + roff in
+  let cnv := Z.max (lb x) (lb y) + Z.max (ld x) (ld y) + roff in
   l <- csub ECapacity rlb roff ;;
   ret (l, rld, cnv).
 (* get_mul_pt_params / get_mul_const_params: `kk` is b.max_k() resp. prec.min_k(base2k) *)
@@ -214,13 +224,13 @@ Definition square_into (B : Z) (d a : ct) : M unit :=
   apply_params_asserting (mul_ct_params B (maxk B d) (cm a) (cm a)) (compact B (cm a) (csize a)).
 Definition square_assign (B : Z) (d : ct) : M unit :=
   m <- get ;; apply_params_asserting (mul_ct_params B (maxk B d) m m) (compact B m (csize d)).
-(* glwe_mul_plain also asserts equal base2k (no PlaintextBase2KMismatch on this path) *)
+(* ensure_base2k_match first *)
 Definition mulptz_into (B : Z) (d a : ct) (p : ptz) : M unit :=
-  apply_params_asserting (mul_pt_params (maxk B d) (cm a) (ld (pm p)) (pmaxk p))
-    ((B =? pb2k p) && compact B (cm a) (csize a)).
+  if negb (B =? pb2k p) then fail EBase2k else
+  apply_params_asserting (mul_pt_params (maxk B d) (cm a) (ld (pm p)) (pmaxk p)) (compact B (cm a) (csize a)).
 Definition mulptz_assign (B : Z) (d : ct) (p : ptz) : M unit :=
-  m <- get ;; apply_params_asserting (mul_pt_params (maxk B d) m (ld (pm p)) (pmaxk p))
-    ((B =? pb2k p) && compact B m (csize d)).
+  if negb (B =? pb2k p) then fail EBase2k else
+  m <- get ;; apply_params_asserting (mul_pt_params (maxk B d) m (ld (pm p)) (pmaxk p)) (compact B m (csize d)).
 (* constants: `prec` is cst_znx.meta() resp. the caller's prec; the digit count does not matter *)
 Definition mulcst_into (B : Z) (d a : ct) (prec : meta) : M unit :=
   apply_params (mul_pt_params (maxk B d) (cm a) (ld prec) (min_k B prec)).
@@ -245,17 +255,16 @@ Definition mulacc (chk : bool) (prod : M unit) : M unit :=
 (* ---- pow2.rs ---- *)
 Definition mulpow2_into (chk : bool) (B : Z) (d a : ct) (bits : Z) : M unit :=
   let off := offset_unary B d a in
-  s <- uadd chk bits off ;;
-  shift s ;;;
-  set_meta (cm a) ;;;
   l <- csub ECapacity (lb (cm a)) off ;;
+  (if bits + off <? two64 then ret tt else fail EOther) ;;;       (* checked_add *)
+  shift (bits + off) ;;;
+  set_meta (cm a) ;;;
   set_lb l.
 Definition divpow2_into (chk : bool) (B : Z) (d a : ct) (bits : Z) : M unit :=
   let off := offset_unary B d a in
+  l <- csub ECapacity (lb (cm a)) (Z.min (bits + off) (two64 - 1)) ;;    (* saturating_add *)
   shift off ;;;
   set_meta (cm a) ;;;
-  s <- uadd chk bits off ;;
-  l <- csub ECapacity (lb (cm a)) s ;;
   set_lb l ;;;
   nl <- uadd chk (ld (cm a)) bits ;;
   set_ld nl.
@@ -270,8 +279,11 @@ Definition rotate_assign (key : bool) : M unit := if negb key then fail EMissing
 (* ---- rescale.rs ---- *)
 Definition rescale_assign (k : Z) : M unit :=
   m <- get ;; l <- csub ECapacity (lb m) k ;; shift k ;;; set_lb l.
-Definition rescale_into (a : ct) (k : Z) : M unit :=
-  l <- csub ECapacity (lb (cm a)) k ;; shift k ;;; set_meta (cm a) ;;; set_lb l.
+Definition rescale_into (B : Z) (d a : ct) (k : Z) : M unit :=
+  l <- csub ECapacity (lb (cm a)) k ;;
+  let off := ssub (ld (cm a) + l) (maxk B d) in
+  l2 <- csub ECapacity l off ;;
+  shift (k + off) ;;; set_meta (cm a) ;;; set_lb l2.
 
 (* ---- delegates/encryption.rs ---- *)
 Definition encrypt (chk : bool) (B : Z) (d : ct) (pt : meta) (enc_k : Z) : M unit :=
@@ -280,6 +292,118 @@ Definition encrypt (chk : bool) (B : Z) (d : ct) (pt : meta) (enc_k : Z) : M uni
   l <- csub ECapacity enc_k (ld pt) ;;
   set_lb l ;;; set_ld (ld pt) ;;;
   ptznx_assign chk B (ptz_alloc B pt).
+
+(* ---- delegates/composite.rs: add_many, mul_many, dot products over slices of ciphertexts ---- *)
+Fixpoint fold_m {A : Type} (f : A -> M unit) (l : list A) : M unit :=
+  match l with [] => ret tt | x :: tl => f x ;;; fold_m f tl end.
+Definition zlen {A : Type} (l : list A) : Z := Z.of_nat (length l).
+Definition dct : ct := Ct (Meta 0 0) 0.
+(* ensure_accumulation_fits *)
+Definition acc_fits (B n : Z) : M unit := if (B <? 64) && (n <=? 2 ^ (63 - B)) then ret tt else fail EOther.
+(* accumulate_unnormalized: each further term goes into a scratch ciphertext with dst's layout, then add_assign_unsafe *)
+Definition accumulate (chk : bool) (A : Type) (term : A -> M unit) (rest : list A) : M unit :=
+  fold_m (fun x => mt <- on_tmp (term x) ;; lin_assign chk (Ct mt 0)) rest.
+
+Definition add_many (chk : bool) (B : Z) (d : ct) (ins : list ct) : M unit :=
+  match ins with
+  | [] => fail EOther
+  | [x] => unary_into_late B d x
+  | x :: y :: tl => acc_fits B (zlen ins) ;;; lin_into chk B d x y ;;; fold_m (fun c => lin_assign chk c) tl
+  end.
+
+Definition min_over (f : ct -> Z) (l : list ct) : Z :=
+  match l with [] => 0 | x :: tl => fold_left (fun acc c => Z.min acc (f c)) tl (f x) end.
+Definition ld_of (c : ct) : Z := ld (cm c).
+Definition lb_of (c : ct) : Z := lb (cm c).
+Definition eff_of (c : ct) : Z := eff (cm c).
+
+(* mul_many_rec: a balanced product tree; the two halves go into scratch ciphertexts of
+   max_k = min effective_k of the half - ceil_log2(len) * log_delta *)
+Fixpoint mul_many_rec (fuel : nat) (B : Z) (d : ct) (ins : list ct) : M unit :=
+  match fuel with
+  | O => panic
+  | S f =>
+      let l0 := ld_of (hd dct ins) in
+      if negb (forallb (fun c => ld_of c =? l0) ins) then fail EOther else
+      match ins with
+      | [] => fail EOther
+      | [x] => unary_into_late B d x
+      | [x; y] => mul_into B d x y
+      | _ =>
+          let mid := Nat.div2 (length ins) in
+          let l := firstn mid ins in let r := skipn mid ins in
+          let lk := ssub (min_over eff_of l) (Z.log2_up (zlen l) * l0) in
+          let rk := ssub (min_over eff_of r) (Z.log2_up (zlen r) * l0) in
+          let dl := Ct (Meta 0 0) (cdiv lk B) in let dr := Ct (Meta 0 0) (cdiv rk B) in
+          ml <- on_tmp (mul_many_rec f B dl l) ;;
+          mr <- on_tmp (mul_many_rec f B dr r) ;;
+          mul_into B d (Ct ml (csize dl)) (Ct mr (csize dr))
+      end
+  end.
+Definition mul_many (B : Z) (d : ct) (ins : list ct) : M unit :=
+  match ins with [] => fail EOther | _ => mul_many_rec (S (length ins)) B d ins end.
+
+(* ckks_dot_product_ct.  The rescaled copies of unaligned inputs go into scratch buffers of exactly the target
+   precision; those calls cannot fail and do not touch dst: they are not modelled. *)
+Definition dot_ct (chk : bool) (B : Z) (d : ct) (xs ys : list ct) : M unit :=
+  if (zlen xs =? 0) || negb (zlen xs =? zlen ys) then fail EOther else
+  acc_fits B (zlen xs) ;;;
+  match combine xs ys with
+  | [] => fail EOther
+  | [(x, y)] => mul_into B d x y
+  | (x0, y0) :: rest =>
+      let a_ld := ld_of x0 in let b_ld := ld_of y0 in
+      let amin := min_over lb_of xs in let bmin := min_over lb_of ys in
+      let a_aligned := forallb (fun c => (lb_of c =? amin) && (ld_of c =? a_ld)) xs in
+      let b_aligned := forallb (fun c => (lb_of c =? bmin) && (ld_of c =? b_ld)) ys in
+      let uniform := forallb (fun c => ld_of c =? a_ld) xs && forallb (fun c => ld_of c =? b_ld) ys in
+      if negb uniform then
+        mul_into B d x0 y0 ;;; accumulate chk _ (fun q => mul_into B d (fst q) (snd q)) rest
+      else
+        let a_t := amin + a_ld in let b_t := bmin + b_ld in
+        lhr0 <- csub EMulUnder (Z.min amin bmin) (Z.max a_ld b_ld) ;;
+        let rld := Z.min a_ld b_ld in
+        let roff := ssub (lhr0 + rld) (maxk B d) in
+        rl <- csub ECapacity lhr0 roff ;;
+        let cnv := Z.max a_t b_t + roff in
+        (* glwe_tensor_apply[_add_assign] assert the limb count of every operand they are handed *)
+        passert ((negb a_aligned || forallb (fun c => cdiv a_t B =? csize c) xs) &&
+                 (negb b_aligned || forallb (fun c => cdiv b_t B =? csize c) ys)) ;;;
+        shift cnv ;;; set_lb rl ;;; set_ld rld
+  end.
+
+(* dot products with plaintexts: first term into dst, the others accumulated *)
+Definition dot_terms (chk : bool) (B : Z) (xs : list ct) (term : ct -> M unit) : M unit :=
+  match xs with
+  | [] => fail EOther
+  | x0 :: rest => acc_fits B (zlen xs) ;;; term x0 ;;; accumulate chk _ term rest
+  end.
+
+Inductive comp :=
+| CAddMany | CMulMany | CDotCt
+| CDotPtZnx (p : ptz) | CDotPtRnx (prec : meta)
+| CDotCstZnx (prec : meta) (none : bool) | CDotCstRnx (prec : meta) (none : bool).
+
+Definition comp_m (chk : bool) (B : Z) (c : comp) (d : ct) (xs ys : list ct) : M unit :=
+  match c with
+  | CAddMany => add_many chk B d xs
+  | CMulMany => mul_many B d xs
+  | CDotCt => dot_ct chk B d xs ys
+  | CDotPtZnx p => dot_terms chk B xs (fun x => mulptz_into B d x p)
+  | CDotPtRnx prec => dot_terms chk B xs (fun x => to_znx_check (ld prec) ;;; mulptz_into B d x (ptz_alloc B prec))
+  | CDotCstZnx prec none =>
+      (* the caller converts the constants with to_znx first *)
+      (match xs with [] => ret tt | _ => cst_to_znx B prec none end) ;;;
+      dot_terms chk B xs (fun x => mulcst_into B d x (cst_meta_of_prec B prec))
+  | CDotCstRnx prec none => dot_terms chk B xs (fun x => p <- mulcstrnx_prec B prec none ;; mulcst_into B d x p)
+  end.
+
+Definition comp_step (chk : bool) (B : Z) (c : comp) (d : ct) (xs ys : list ct) : outcome :=
+  match comp_m chk B c d xs ys (cm d) [] with
+  | R _ m sh => Done m (csize d) sh
+  | F e m => Fail e m
+  | P => Panic
+  end.
 
 (* ---- operations ---- *)
 Inductive op :=
@@ -348,12 +472,12 @@ Definition meta_m (chk : bool) (B : Z) (o : op) (d a b : ct) : M unit :=
   | ORotateAssign key => rotate_assign key
   | OConjInto => unary_into B d a
   | OConjAssign => ret tt
-  | ORescaleInto k => rescale_into a k
+  | ORescaleInto k => rescale_into B d a k
   | ORescaleAssign k => rescale_assign k
   | OCompact => ret tt
   | ORealloc size => m <- get ;; if size <? cdiv (eff m) B then fail EShrink else ret tt
   | OCompactCopy => passert (cdiv (eff (cm a)) B <=? csize a) ;;; set_meta (cm a)
-  | OSetMeta m' => e <- uadd chk (ld m') (lb m') ;; if e <=? maxk B d then set_meta m' else fail EShrink
+  | OSetMeta m' => if (ld m' + lb m' <? two64) && (ld m' + lb m' <=? maxk B d) then set_meta m' else fail EShrink
   | ODecrypt pt => extract_pt chk B (ptz_alloc B pt)
   end.
 
@@ -425,10 +549,16 @@ Definition ptz_extra (B : Z) (m : meta) (extra b2k : Z) : ptz :=
 Inductive dstep :=
 | DOp (o : op) (d a b : nat)
 | DAlign (d b : nat)
+| DComp (c : comp) (d : nat) (xs ys : list nat)
 | DBad.
 
 Definition nregs : nat := 6.
 Definition reg_ok (z : Z) : bool := (0 <=? z) && (z <? Z.of_nat nregs).
+
+(* register lists of the composites: n entries, packed base 8 *)
+Definition unpack (n packed : Z) : list Z := map (fun i => (packed / 8 ^ Z.of_nat i) mod 8) (seq 0 (Z.to_nat n)).
+Definition list_ok (d n packed : Z) : bool :=
+  (0 <=? packed) && forallb (fun r => (r <? Z.of_nat 6) && negb (r =? d)) (unpack n packed).
 
 Definition decode (B : Z) (s : list Z) : dstep :=
   let code := nthz s 0 in
@@ -442,6 +572,12 @@ Definition decode (B : Z) (s : list Z) : dstep :=
   let u0 (o : op) := if reg_ok d then DOp o dn dn dn else DBad in
   let u1 (o : op) := if reg_ok d && reg_ok a && negb (a =? d) then DOp o dn an an else DBad in
   let u2 (o : op) := if reg_ok d && reg_ok a && reg_ok b && negb (a =? d) && negb (b =? d) then DOp o dn an bn else DBad in
+  let s3 := nthz s 7 in let s4 := nthz s 8 in
+  let m34 := Meta s3 s4 in
+  let regs1 := map Z.to_nat (unpack s0 s1) in let regs2 := map Z.to_nat (unpack s0 s2) in
+  let cmp (c : comp) (two : bool) :=
+    if reg_ok d && (0 <=? s0) && (s0 <=? 5) && list_ok d s0 s1 && (0 <=? s2) && (negb two || list_ok d s0 s2)
+    then DComp c dn regs1 (if two then regs2 else []) else DBad in
   if negb (Nat.eqb (length s) 10) then DBad else
   match code with
   | 1 => u0 (OAlloc s0)
@@ -491,6 +627,13 @@ Definition decode (B : Z) (s : list Z) : dstep :=
   | 67 => u1 OCompactCopy
   | 68 => u0 (OSetMeta m01)
   | 69 => u0 (ODecrypt m01)
+  | 70 => cmp CAddMany false
+  | 71 => cmp CMulMany false
+  | 72 => cmp CDotCt true
+  | 73 => cmp (CDotPtZnx (ptz_extra B m34 0 B)) false
+  | 74 => cmp (CDotPtRnx m34) false
+  | 75 => cmp (CDotCstZnx m34 none) false
+  | 76 => cmp (CDotCstRnx m34 none) false
   | _ => DBad
   end.
 
@@ -537,6 +680,10 @@ Fixpoint run_steps (chk : bool) (B : Z) (rs : regs) (p : list dstep) : list (lis
       r :: (if dead then [] else run_steps chk B rs' tl)
   | DOp o d a b :: tl =>
       let '(oc, rs') := exec_step chk B rs (Step o d a b) in
+      row oc (rget rs' d) :: (if is_panic oc then [] else run_steps chk B rs' tl)
+  | DComp c d xs ys :: tl =>
+      let oc := comp_step chk B c (rget rs d) (map (rget rs) xs) (map (rget rs) ys) in
+      let rs' := apply_outcome rs d oc in
       row oc (rget rs' d) :: (if is_panic oc then [] else run_steps chk B rs' tl)
   end.
 
